@@ -533,4 +533,79 @@ theorem json_roundtrip_code (lf : Leaf) (hleaf : ∀ c b, lf.dec c (lf.enc c b) 
   · have hcb : (x.2.2.2 == "num") = false := by simpa using hc
     simp only [hcb, Bool.false_eq_true, if_false, List.isEmpty_iff] at hzero
     simp [zeroOf, hw, hzero]
+
+/-! ## Timestamps: instants, for every zone -/
+
+/-- **Timestamps are handled as instants everywhere** (T1): the hash and the binary serializer use
+`UnixNano` / `time.Unix(0, ns)`; the JSON writer converts to UTC before it formats with the layout
+whose zone designator is the literal "Z", and the reader parses RFC 3339. -/
+theorem timestamp_codecs_are_instants :
+    Gen.AuditLog.hashTime = "UnixNano" ∧ Gen.AuditLog.binTimeW = "UnixNano" ∧ Gen.AuditLog.binTimeR = "Unix(0,ns)" ∧
+    jsonTimeUTC = true ∧ Gen.AuditLog.jsonTimeLayout = "2006-01-02T15:04:05.999999999Z" ∧
+    Gen.AuditLog.jsonTimeRead = ["Parse", "RFC3339Nano"] := by decide
+
+/-- With the UTC conversion the timestamp leaf round-trips **for every zone offset**. -/
+theorem zone_leaf_roundtrip (offNs : Nat) (c : String) (b : Bytes) :
+    (zoneLeaf jsonTimeUTC offNs).dec c ((zoneLeaf jsonTimeUTC offNs).enc c b) = b := by
+  have h : jsonTimeUTC = true := timestamp_codecs_are_instants.2.2.2.1
+  simp [zoneLeaf, h]
+
+/-- …and without it it does not: the written reading is the instant shifted by the offset (here +02:00). -/
+example : (zoneLeaf false 7200000000000).dec "time" ((zoneLeaf false 7200000000000).enc "time" [0, 0, 0, 0, 0, 0, 0, 1])
+    ≠ [0, 0, 0, 0, 0, 0, 0, 1] := by decide
+
+/-- **JSON round trip for all zones**: whatever Location the entry's timestamp carries, every field the
+decoder reads — the timestamp as an instant included — comes back unchanged. -/
+theorem json_roundtrip_all_zones (offNs : Nat) (k : Nat) (hk : k ∈ [0, 1, 2]) (r : Rec)
+    (hwid : ∀ x ∈ jsonW Gen.AuditLog.currentVersion k, 0 < widthOf x.1 → (get r x.1).length = widthOf x.1) :
+    ∀ f ∈ (jsonR Gen.AuditLog.currentVersion k).map (·.1),
+      get (jsonRead (zoneLeaf jsonTimeUTC offNs) zeroOf (jsonR Gen.AuditLog.currentVersion k)
+            (jsonWrite (zoneLeaf jsonTimeUTC offNs) (jsonW Gen.AuditLog.currentVersion k) r)) f = get r f :=
+  json_roundtrip_code _ (zone_leaf_roundtrip offNs) k hk r hwid
+
+/-- Everything the hash covers is read back by the JSON decoder / written by the binary encoder. -/
+theorem hashed_fields_are_serialised :
+    ∀ k ∈ [0, 1, 2],
+      (∀ f ∈ (hashT.pre ++ hashT.details Gen.AuditLog.currentVersion k).map (·.1) ++ hashT.tail,
+        f ∈ (jsonR Gen.AuditLog.currentVersion k).map (·.1)) ∧
+      (∀ f ∈ (hashT.pre ++ hashT.details Gen.AuditLog.currentVersion k).map (·.1) ++ hashT.tail,
+        f ∈ (binW.pre ++ (binW.details Gen.AuditLog.currentVersion k ++ binW.tail)).map (·.1)) := by decide
+
+/-- **hash (decode (encode e)) = hash e, JSON, all zones**: a genuinely produced current-version entry
+still hashes to its recorded hash after the JSON round trip, whatever zone its timestamp carries. -/
+theorem hash_preserved_by_json_roundtrip (offNs : Nat) (k : Nat) (hk : k ∈ [0, 1, 2]) (r : Rec)
+    (hv : version r = Gen.AuditLog.currentVersion) (hkind : kind hashT r = k)
+    (hwid : ∀ x ∈ jsonW Gen.AuditLog.currentVersion k, 0 < widthOf x.1 → (get r x.1).length = widthOf x.1) :
+    hashInput hashT (jsonRead (zoneLeaf jsonTimeUTC offNs) zeroOf (jsonR Gen.AuditLog.currentVersion k)
+        (jsonWrite (zoneLeaf jsonTimeUTC offNs) (jsonW Gen.AuditLog.currentVersion k) r)) = hashInput hashT r := by
+  have hall := json_roundtrip_all_zones offNs k hk r hwid
+  have hsub := (hashed_fields_are_serialised k hk).1
+  have hnames : ∀ f ∈ hashedNames hashT r, f ∈ (jsonR Gen.AuditLog.currentVersion k).map (·.1) := by
+    intro f hf
+    unfold hashedNames specOf at hf
+    rw [hv, hkind] at hf
+    exact hsub f hf
+  apply hashInput_congr
+  · exact hall "Version" (hnames "Version" (by unfold hashedNames specOf; simp [hashT, Gen.AuditLog.hashPre]))
+  · exact hall "Type" (hnames "Type" (by unfold hashedNames specOf; simp [hashT, Gen.AuditLog.hashPre]))
+  · exact fun f hf => hall f (hnames f hf)
+
+/-- **hash (decode (encode e)) = hash e, binary** (the binary format stores the instant). -/
+theorem hash_preserved_by_binary_roundtrip (k : Nat) (hk : k ∈ [0, 1, 2]) (r : Rec)
+    (hv : version r = Gen.AuditLog.currentVersion) (hkind : kind hashT r = k) :
+    hashInput hashT (proj (binSpec binW r) r) = hashInput hashT r := by
+  have hkb : binW.kind r = kind hashT r := rfl
+  have hsub := (hashed_fields_are_serialised k hk).2
+  have hnames : ∀ f ∈ hashedNames hashT r, f ∈ (binSpec binW r).map (·.1) := by
+    intro f hf
+    unfold hashedNames specOf at hf
+    rw [hv, hkind] at hf
+    unfold binSpec
+    rw [hkb, hv, hkind]
+    exact hsub f hf
+  apply hashInput_congr
+  · exact get_proj _ r _ (hnames "Version" (by unfold hashedNames specOf; simp [hashT, Gen.AuditLog.hashPre]))
+  · exact get_proj _ r _ (hnames "Type" (by unfold hashedNames specOf; simp [hashT, Gen.AuditLog.hashPre]))
+  · exact fun f hf => get_proj _ r f (hnames f hf)
+
 end Pithos.C27
